@@ -98,6 +98,7 @@ def run(ctx):
         stats["keep_runs" if keep else "default_runs"] += 1
         finished = {}          # pid -> ending state
         bad = None
+        mon_reqs = []
         msg_ids = set()
         deployed = {}          # mid -> event ids
         for st in res.get("steps", []):
@@ -130,16 +131,13 @@ def run(ctx):
             trow = {}
             for r in rows.get("tasks", []):
                 trow.setdefault(r["pid"], []).append(r)
+            # the retention predicate itself is `Ret.retentionCheck`, evaluated by the Lean driver on these rows (collected here, judged below)
+            mon_reqs.append((i, {"cmd": "c17.monitor", "keep": keep, "finished": sorted(finished), "procs": sorted(prow),
+                                 "tasks": [[r["id"], r["pid"]] for r in rows.get("tasks", [])]}))
             for pid in sc["pids"]:
                 if pid in finished:
-                    if not keep:
-                        if pid in prow or trow.get(pid):
-                            bad = ("rows-left-after-terminal-event", f"op {i}: process {pid} ended {finished[pid]} but {('a process row' if pid in prow else '')} {len(trow.get(pid, []))} task rows remain")
-                    else:
-                        if pid not in prow or not trow.get(pid):
-                            bad = ("rows-deleted-despite-keep", f"op {i}: keep_processes is on but rows of {pid} are gone")
-                        elif prow[pid]["state"] not in TERMINAL:
-                            bad = ("kept-process-not-terminal", f"op {i}: kept process row {pid} has state {prow[pid]['state']}")
+                    if keep and pid in prow and prow[pid]["state"] not in TERMINAL:
+                        bad = ("kept-process-not-terminal", f"op {i}: kept process row {pid} has state {prow[pid]['state']}")
                 else:
                     # a live process is never collateral damage of another one's removal
                     started = any(o2.get("k") == "new" and o2.get("pid") == pid for st2 in res["steps"][: res["steps"].index(st) + 1] for o2 in st2["obs"])
@@ -163,6 +161,17 @@ def run(ctx):
             if bad:
                 break
         stats["finished"] += len(finished)
+        if mon_reqs:
+            verdicts = ctx.driver([r for _, r in mon_reqs], tag="dr")
+            for (i, rq), vd in zip(mon_reqs, verdicts):
+                stats["rows_judged"] = stats.get("rows_judged", 0) + 1
+                if isinstance(vd, dict) and vd.get("ok") is False:
+                    # the earliest failure of the run wins
+                    ntasks = sum(1 for t in rq["tasks"] if t[1] == vd.get("pid"))
+                    cand = (vd["why"], f"op {i}: process {vd.get('pid')} (ended {finished.get(vd.get('pid'))}): {'a process row and ' if vd.get('pid') in rq['procs'] else ''}{ntasks} task rows in the store")
+                    if bad is None or i < int(bad[1].split(":")[0].split()[1]):
+                        bad = cand
+                    break
         if bad:
             ctx.cov["monitor_failures"] += 1
             ctx.violation(f"C17|{bad[0]}|{'keep' if keep else 'default'}", f"{bad[1]} ({sc['config']['store']})", {"scenario": sc})
